@@ -62,6 +62,13 @@ func parseNetLine(op string) *oCfg {
 	return c
 }
 
+func trunc(s string, n int) string {
+	if len(s) > n {
+		return s[:n] + "..."
+	}
+	return s
+}
+
 // splitEvent: "pv(1,nil)@7" -> kind "pv", args ["1","nil"], pos 7 (-1 if none)
 func splitEvent(e string) (kind string, args []string, pos int) {
 	pos = -1
@@ -117,6 +124,7 @@ func judgeCase(c core.Case, out []string) ([]core.Finding, caseStats) {
 	lastVoteRound := map[int]int{} // node -> largest round voted in
 	precommits := map[int][]pcRec{}
 	lockSeen := map[int]string{}
+	lastState := map[int]string{} // node -> its last canonical state line
 
 	// power of the distinct SIGNERS (validators < n) of votes (kind, r, b) at positions < upto: a vote
 	// counts for the validator whose key signed it, whatever slot or address it claims - once. A
@@ -175,6 +183,7 @@ func judgeCase(c core.Case, out []string) ([]core.Finding, caseStats) {
 				lastVoteRound = map[int]int{}
 				precommits = map[int][]pcRec{}
 				lockSeen = map[int]string{}
+				lastState = map[int]string{}
 			}
 			continue
 		}
@@ -253,9 +262,24 @@ func judgeCase(c core.Case, out []string) ([]core.Finding, caseStats) {
 				st.locks++
 			}
 		}
+		stateNow := strings.TrimSpace(parts[0][len(head[0]):])
+		prevState, hadPrev := lastState[node]
+		lastState[node] = stateNow
 		for _, e := range strings.Fields(parts[1]) {
 			kind, args, pos := splitEvent(e)
 			switch kind {
+			case "restarted":
+				// the node came back through the fast-sync hand-over with zero blocks synced: the
+				// blockchain reactor must let consensus replay its WAL, and the replay must put the node
+				// back exactly where it was (round, step, lock, valid block, proposal, every vote set)
+				if len(args) == 1 && args[0] != "walcatchup=true" {
+					add("blockchain/v0.poolRoutine.SwitchToConsensus.skipWAL-with-zero-blocks-synced",
+						fmt.Sprintf("node %d restarted through fast sync with nothing to sync and consensus was started WITHOUT WAL catch-up (op %d)", node, i))
+				}
+				if prev := prevState; hadPrev && prev != stateNow {
+					add("consensus.restart.state-not-restored-from-WAL",
+						fmt.Sprintf("node %d after the restart: %q; before: %q (op %d)", node, trunc(stateNow, 160), trunc(prev, 160), i))
+				}
 			case "prop", "pv", "pc":
 				if len(args) < 2 {
 					continue
@@ -432,7 +456,7 @@ func extra() map[string]interface{} {
 		}
 	}
 	m := map[string]interface{}{"max_round_reached": maxRnd, "power_sets_dropped_path_dependent": dropped, "generator_events": genStats, "node_panics_by_class": panicStats, "goroutines_at_end": runtime.NumGoroutine(), "leftover_temp_dirs": leftoverDirs()}
-	for _, c := range []string{"sched", "happy", "lock-partition", "unsafe", "late-polka", "locked-pol", "forged-slots", "claim-replay", "own-delay", "corpus"} {
+	for _, c := range []string{"sched", "happy", "lock-partition", "unsafe", "late-polka", "locked-pol", "forged-slots", "claim-replay", "own-delay", "restart", "corpus"} {
 		m["decisions."+c] = stats["decisions."+c]
 		m["lock_events."+c] = stats["lock_events."+c]
 	}
